@@ -1475,3 +1475,248 @@ func runTurnSecretDecoded(c *Ctx) {
 		c.OK("turn-secret/decoded", f.Pos(), "the secret is the decoded result of Userinfo.Password(); no escaped form of the URL is read")
 	}
 }
+
+// ---- round 16 ----
+
+func init() {
+	Register(&Rule{
+		Name:  "R-CONTROL-ERROR-VERBATIM",
+		Props: []string{"C02"},
+		Min:   1,
+		Doc: "the end of the control stream is an error until the End record says otherwise: in the closures of RecvManifestMultiStream the error of readControlMessage is never assigned (`err = nil`) before it is handed on - " +
+			"both readers of the control-error channel return what they receive; a clean EOF between two records turned into nil makes the receiver report success with files missing when the sender ends its stream early",
+		Run: runControlErrorVerbatim,
+	})
+	Register(&Rule{
+		Name:  "R-REMOVE-REACHES-CLEANUP",
+		Props: []string{"C11"},
+		Min:   1,
+		Doc: "a leave always reaches the clean-up of the empty session: the function returned by Hub.removeFunc has no return inside a clause of a select (the bounded wait for the writer falls through on its timeout) - " +
+			"returning from the timeout clause skips the deletion of the session's map entries whenever the last peer leaves with its writer stuck in a send: routing state of an empty session stays for ever",
+		Run: runRemoveReachesCleanup,
+	})
+	Register(&Rule{
+		Name:  "R-LEAVER-STATUS-UNCONDITIONAL",
+		Props: []string{"C12"},
+		Min:   1,
+		Doc: "a receiver that leaves is not waiting any more, slot or no slot: in handlePeerLeft the assignment Status = FAILED is not nested under a test of the active map or of a slot - " +
+			"a queued receiver that leaves is taken off the queue; with its status left at QUEUED it is exempt from the clean-up, shows as waiting without having accepted when it returns, and status and queue disagree",
+		Run: runLeaverStatusUnconditional,
+	})
+	Register(&Rule{
+		Name:  "R-ONE-CLASSIFIER",
+		Props: []string{"C03"},
+		Min:   2,
+		Doc: "a file has one size class: in internal/scheduler the class thresholds of the configuration are compared with a run-time size in classForRemaining only - " +
+			"a second, hand-written classification (`remaining < SmallThreshold` next to `<=`) disagrees at the boundary: a file of exactly the threshold is small for one selector and not small for the other, Next never hands it out, its FileBegin is never sent and both peers wait",
+		Run: runOneClassifier,
+	})
+}
+
+func runControlErrorVerbatim(c *Ctx) {
+	p := c.P
+	root := p.Func("transfer.RecvManifestMultiStream")
+	if root == nil {
+		c.MissingAnchor("transfer.RecvManifestMultiStream")
+		return
+	}
+	n := 0
+	var visit func(f *FuncInfo)
+	visit = func(f *FuncInfo) {
+		for _, k := range f.Kids {
+			visit(k)
+		}
+		info := f.Info()
+		var errObjs []types.Object
+		InspectNoLits(f.Body, func(m ast.Node) bool {
+			as, ok := m.(*ast.AssignStmt)
+			if !ok || len(as.Rhs) != 1 {
+				return true
+			}
+			call, ok := ast.Unparen(as.Rhs[0]).(*ast.CallExpr)
+			if !ok {
+				return true
+			}
+			if callee := p.CalleeInfo(info, call); callee != nil && callee.Name == "transfer.readControlMessage" && len(as.Lhs) > 0 {
+				if o := ObjOf(info, as.Lhs[len(as.Lhs)-1]); o != nil {
+					errObjs = append(errObjs, o)
+				}
+			}
+			return true
+		})
+		for _, eo := range errObjs {
+			n++
+			bad := false
+			InspectNoLits(f.Body, func(m ast.Node) bool {
+				as, ok := m.(*ast.AssignStmt)
+				if !ok || as.Tok != token.ASSIGN {
+					return true
+				}
+				for i, l := range as.Lhs {
+					if ObjOf(info, l) != eo || i >= len(as.Rhs) {
+						continue
+					}
+					if id, ok := ast.Unparen(as.Rhs[i]).(*ast.Ident); ok && id.Name == "nil" {
+						bad = true
+						c.Bad(fmt.Sprintf("control-error/%s#%d", f.Name, n), as.Pos(), f.Name+" sets the error of readControlMessage to nil before handing it on: the readers of the control-error channel return what they receive, "+
+							"so a sender that ends its control stream at a record boundary before every file is complete makes the receiver report success with files missing")
+					}
+				}
+				return true
+			})
+			if !bad {
+				c.OK(fmt.Sprintf("control-error/%s#%d", f.Name, n), f.Pos(), "the error of readControlMessage is handed on as it is")
+			}
+		}
+	}
+	visit(root)
+	if n == 0 {
+		c.Bad("control-error/none", root.Pos(), "found no call of readControlMessage in the closures of RecvManifestMultiStream")
+	}
+}
+
+func runRemoveReachesCleanup(c *Ctx) {
+	p := c.P
+	f := p.Func("peers.(*Hub).removeFunc")
+	if f == nil {
+		c.MissingAnchor("peers.(*Hub).removeFunc")
+		return
+	}
+	n := 0
+	for _, lit := range f.Kids {
+		n++
+		bad := false
+		InspectNoLits(lit.Body, func(m ast.Node) bool {
+			rs, ok := m.(*ast.ReturnStmt)
+			if !ok {
+				return true
+			}
+			for _, anc := range pathTo(lit.Body, rs) {
+				if _, ok := anc.(*ast.CommClause); ok {
+					bad = true
+					c.Bad(fmt.Sprintf("remove-cleanup/lit#%d", n), rs.Pos(), "the remove function returns from a clause of its select: when the wait for the writer ends that way the deletion of the empty session behind it never runs - "+
+						"the last peer of a session leaving with its writer stuck in a send leaves the session's entries in both maps for ever")
+				}
+			}
+			return true
+		})
+		if !bad {
+			c.OK(fmt.Sprintf("remove-cleanup/lit#%d", n), lit.Pos(), "no return inside a select clause of the remove function: every wait falls through to the clean-up")
+		}
+	}
+	if n == 0 {
+		c.Unknown("remove-cleanup/lit", f.Pos(), "Hub.removeFunc returns no function literal")
+	}
+}
+
+func runLeaverStatusUnconditional(c *Ctx) {
+	p := c.P
+	f := p.Func("app.(*SnapshotSender).handlePeerLeft")
+	if f == nil {
+		c.MissingAnchor("app.(*SnapshotSender).handlePeerLeft")
+		return
+	}
+	info := f.Info()
+	n := 0
+	InspectNoLits(f.Body, func(m ast.Node) bool {
+		as, ok := m.(*ast.AssignStmt)
+		if !ok || len(as.Lhs) != 1 || len(as.Rhs) != 1 {
+			return true
+		}
+		sel, ok := ast.Unparen(as.Lhs[0]).(*ast.SelectorExpr)
+		if !ok || sel.Sel.Name != "Status" {
+			return true
+		}
+		if id, ok := ast.Unparen(as.Rhs[0]).(*ast.Ident); !ok || id.Name != "ReceiverStatusFailed" {
+			return true
+		}
+		n++
+		key := fmt.Sprintf("leaver-status/assign#%d", n)
+		nested := ""
+		for _, anc := range pathTo(f.Body, as) {
+			is, ok := anc.(*ast.IfStmt)
+			if !ok {
+				continue
+			}
+			check := func(nd ast.Node) {
+				if nd == nil {
+					return
+				}
+				ast.Inspect(nd, func(k ast.Node) bool {
+					if s, ok := k.(*ast.SelectorExpr); ok && s.Sel.Name == "active" {
+						nested = types.ExprString(is.Cond)
+					}
+					if id, ok := k.(*ast.Ident); ok {
+						if o := info.Uses[id]; o != nil && strings.Contains(o.Type().String(), "transferSlot") {
+							nested = types.ExprString(is.Cond)
+						}
+					}
+					return true
+				})
+			}
+			check(is.Init)
+			check(is.Cond)
+		}
+		if nested == "" {
+			c.OK(key, as.Pos(), "handlePeerLeft marks the leaver FAILED whether or not it holds a slot")
+		} else {
+			c.Bad(key, as.Pos(), "handlePeerLeft marks a leaver FAILED only under `"+nested+"`, a test of the active map: a receiver that leaves while it waits in the queue is taken off the queue with its status left at QUEUED - "+
+				"exempt from the clean-up, shown as waiting without having accepted when it returns")
+		}
+		return true
+	})
+	if n == 0 {
+		c.Bad("leaver-status/none", f.Pos(), "handlePeerLeft no longer assigns Status = ReceiverStatusFailed")
+	}
+}
+
+func runOneClassifier(c *Ctx) {
+	p := c.P
+	n := 0
+	for _, f := range p.FuncsIn("internal/scheduler") {
+		if f.Body == nil || strings.HasSuffix(p.Fset.Position(f.Pos()).Filename, "_test.go") {
+			continue
+		}
+		info := f.Info()
+		k := 0
+		InspectNoLits(f.Body, func(m ast.Node) bool {
+			be, ok := m.(*ast.BinaryExpr)
+			if !ok {
+				return true
+			}
+			switch be.Op {
+			case token.LSS, token.LEQ, token.GTR, token.GEQ, token.EQL, token.NEQ:
+			default:
+				return true
+			}
+			isThr := func(e ast.Expr) bool {
+				s, ok := ast.Unparen(e).(*ast.SelectorExpr)
+				return ok && strings.HasSuffix(s.Sel.Name, "Threshold")
+			}
+			var other ast.Expr
+			if isThr(be.X) {
+				other = be.Y
+			} else if isThr(be.Y) {
+				other = be.X
+			} else {
+				return true
+			}
+			if tv, ok := info.Types[other]; ok && tv.Value != nil {
+				return true // a default for an unset option
+			}
+			k++
+			n++
+			key := fmt.Sprintf("one-classifier/%s#%d", f.Name, k)
+			if strings.HasSuffix(f.Name, ".classForRemaining") {
+				c.OK(key, be.Pos(), "a class threshold is compared with a size in classForRemaining")
+			} else {
+				c.Bad(key, be.Pos(), f.Name+" classifies by `"+types.ExprString(be)+"` outside classForRemaining: a second classification that can disagree with the first at the boundary - "+
+					"a file of exactly the threshold belongs to one class for the weighted selector and to another for the class selector, is never handed out, and both peers wait for it")
+			}
+			return true
+		})
+	}
+	if n == 0 {
+		c.Bad("one-classifier/none", token.NoPos, "found no comparison of a class threshold with a size in internal/scheduler")
+	}
+}
